@@ -63,6 +63,13 @@ pub enum Platform {
 impl Platform {
     #[allow(unreachable_code)]
     pub fn detect() -> Self {
+        #[cfg(blake3_team_blake3_verif)]
+        {
+            if let Some(p) = verif_hooks::platform_override() {
+                return p;
+            }
+        }
+
         #[cfg(miri)]
         {
             return Platform::Portable;
@@ -540,4 +547,54 @@ pub fn le_bytes_from_words_64(words: &[u32; 16]) -> [u8; 64] {
     *array_mut_ref!(out, 14 * 4, 4) = words[14].to_le_bytes();
     *array_mut_ref!(out, 15 * 4, 4) = words[15].to_le_bytes();
     out
+}
+
+// Verification hook (off unless built with --cfg blake3_team_blake3_verif): a thread-local
+// override consulted first in Platform::detect(), so that one build can run the whole crate at
+// every SIMD level the CPU supports.
+#[cfg(blake3_team_blake3_verif)]
+pub mod verif_hooks {
+    use super::Platform;
+    use std::cell::Cell;
+
+    std::thread_local! {
+        static OVERRIDE: Cell<Option<Platform>> = const { Cell::new(None) };
+    }
+
+    pub fn platform_override() -> Option<Platform> {
+        OVERRIDE.with(|o| o.get())
+    }
+
+    /// `name` is one of "portable", "sse2", "sse41", "avx2", "avx512" or "detect" (no override).
+    /// Returns false (and leaves the override unchanged) if the CPU or build lacks that level.
+    pub fn set_platform_override(name: &str) -> bool {
+        let p = match name {
+            "detect" => None,
+            "portable" => Some(Platform::Portable),
+            #[cfg(any(target_arch = "x86", target_arch = "x86_64"))]
+            "sse2" => match Platform::sse2() {
+                Some(p) => Some(p),
+                None => return false,
+            },
+            #[cfg(any(target_arch = "x86", target_arch = "x86_64"))]
+            "sse41" => match Platform::sse41() {
+                Some(p) => Some(p),
+                None => return false,
+            },
+            #[cfg(any(target_arch = "x86", target_arch = "x86_64"))]
+            "avx2" => match Platform::avx2() {
+                Some(p) => Some(p),
+                None => return false,
+            },
+            #[cfg(blake3_avx512_ffi)]
+            #[cfg(any(target_arch = "x86", target_arch = "x86_64"))]
+            "avx512" => match Platform::avx512() {
+                Some(p) => Some(p),
+                None => return false,
+            },
+            _ => return false,
+        };
+        OVERRIDE.with(|o| o.set(p));
+        true
+    }
 }
